@@ -668,8 +668,30 @@ def run_op(ctx, spec, env, fam, fail_at=None, want_full=False):
     return rec
 
 
+def compare_construction(ctx, fam, rec, ans):
+    crec = rec["construct"]
+    replay = {"family": fam.params, "op": "construct"}
+    if ans is None:
+        ctx.report_k("model rejected the construction request of %s" % fam.name, replay)
+        return
+    calls = []
+    for a in ans:
+        if not a["out"].startswith("ok") or a.get("st") != "0":
+            ctx.report_k("construction of %s: model answers %s" % (fam.name, a), replay)
+            return
+        calls.append(a["c"])
+    want = ["1:%d" % rolling([i]) for i in crec["trace_idx"]]
+    p = sum(int(a["p"]) for a in ans)
+    it = sum(int(a["i"]) for a in ans)
+    if calls != want or p != crec["p"] or it != crec["i"]:
+        ctx.report_k("construction of %s: callbacks/pushes/iterations model=(%d,%d,%d) impl=(%d,%d,%d)" % (
+            fam.name, sum(1 for c in calls if c.startswith("1:")), p, it, crec["ncalls"], crec["p"], crec["i"]), replay)
+
+
 def compare(ctx, fam, rec, ans, fam_sig):
     """K: model answer vs observation; S: the property's own bounds."""
+    if rec["op"] == "construct":
+        return compare_construction(ctx, fam, rec, ans)
     replay = {"family": fam.params, "op": rec["op"], "req": rec["req"][:2000]}
     sig = dict(fam_sig, op=rec["op"])
     bad = False
@@ -730,8 +752,24 @@ def tapped_construction(ctx, shape, kind, k):
         dt = time.time() - t0
         st = tap.restore()
         counts = collections.Counter(tap.trace)
-        return env, fam, {"exc": exc, "counts": counts, "ncalls": len(tap.trace), "p": st.pushes, "i": st.pops,
-                          "time": dt, "maxstack": st.maxlen}
+        crec = {"exc": exc, "counts": counts, "ncalls": len(tap.trace), "p": st.pushes, "i": st.pops,
+                "time": dt, "maxstack": st.maxlen, "req": None}
+        if exc is None and len(tap.trace) <= 1500 and len(counts) == len(tap.trace):
+            # the same construction as a request to the model: one walk per created node, in creation order
+            pre = []
+            seen = set(tap.trace)
+            for nd in tap.trace:
+                for c in nd.args():
+                    if c not in seen:
+                        seen.add(c)
+                        pre.append(c)
+            order = pre + list(tap.trace)
+            index = {nd: i for i, nd in enumerate(order)}
+            chl = [[] for _ in pre] + [[index[c] for c in nd.args()] for nd in tap.trace]
+            crec["req"] = make_request(chl, [], False, True, False, list(range(len(pre))),
+                                       ["w%d" % index[nd] for nd in tap.trace])
+            crec["trace_idx"] = [index[nd] for nd in tap.trace]
+        return env, fam, crec
     finally:
         pop_env()
 
@@ -839,6 +877,24 @@ def check_parse(ctx, env, fam, fam_sig, timings):
         ctx.report_k("parser created an interior node %d times (expected 1) on %s" % (cnt[inner_wrong[0]], fam.name), replay)
         ok = False
     return ok
+
+
+def check_tree_walkers(ctx, env, fam, fam_sig, timings):
+    """walkers/tree.py (generator-based TreeWalker: HR serialisation, tree-style SMT-LIB printing): not memoising,
+    so only run where the tree is as small as the DAG (combs, wide nodes); S = no RecursionError at any depth."""
+    for name, th in (("hr_serialize", lambda: fam.phi.serialize()),
+                     ("print_tree", lambda: fam.phi.to_smtlib(daggify=False))):
+        t0 = time.time()
+        try:
+            th()
+        except RecursionError:
+            ctx.report_s(dict(fam_sig, op=name, oracle="recursion"),
+                         "RecursionError in %s on %s" % (name, fam.name), {"family": fam.params, "op": name})
+        except Exception as e:     # noqa
+            ctx.report_k("%s on %s raised %r" % (name, fam.name, e), {"family": fam.params, "op": name})
+        timings.setdefault(name, []).append((fam.params["shape"], fam.params["kind"], fam.params["k"],
+                                             round(time.time() - t0, 3)))
+        ctx.count("op:" + name)
 
 
 # ----------------------------------------------------------------------------------------------
@@ -956,12 +1012,15 @@ def plan(ctx):
     return cases
 
 
-def run_family(ctx, shape, kind, k, opset, pending, timings):
+def run_family(ctx, shape, kind, k, opset, pending, timings, only_op=None):
     fam_params = {"shape": shape, "kind": kind, "k": k}
     fam_sig = {"family": "%s/%s" % (shape, kind)}
     env, fam, crec = tapped_construction(ctx, shape, kind, k)
     timings.setdefault("construct", []).append((shape, kind, k, round(crec["time"], 3)))
     ok = check_construction(ctx, fam_params, env, fam, crec, fam_sig)
+    if crec.get("req"):
+        pending.append((fam, {"op": "construct", "construct": crec, "req": crec["req"], "nodes": len(crec["counts"]),
+                              "edges": 0, "exc": None}, fam_sig))
     if fam is None:
         ctx.case(None)
         return
@@ -973,12 +1032,16 @@ def run_family(ctx, shape, kind, k, opset, pending, timings):
                 break
             if opset == "linear" and spec.name in QUADRATIC_OPS:
                 continue
+            if only_op is not None and spec.name != only_op:
+                continue
             rec = run_op(ctx, spec, env, fam)
             timings.setdefault(spec.name, []).append((shape, kind, k, round(rec["time"], 3)))
             rec.pop("res", None)
             pending.append((fam, rec, fam_sig))
             ctx.count("op:" + spec.name)
-        if ctx.time_left() > 25:
+        if shape in ("comb", "wide") and ctx.time_left() > 25 and only_op in (None, "hr_serialize", "print_tree"):
+            check_tree_walkers(ctx, env, fam, fam_sig, timings)
+        if ctx.time_left() > 25 and only_op in (None, "parse_dag", "print_script"):
             tm = {}
             check_parse(ctx, env, fam, fam_sig, tm)
             for kk, vv in tm.items():
@@ -1032,9 +1095,9 @@ def run(ctx):
         else:
             compare(ctx, fam, rec, ans, fam_sig)
         nontriv = (rec["nodes"] < rec["edges"] + 1 and fam.params.get("shape") in ("diamond", "wide", "random")) \
-            or fam.depth > 1000
+            or fam.depth > 1000 or rec["op"] == "construct"
         ctx.case((fam.name, fam.params.get("k"), rec["op"]) if nontriv else None)
-        if rec["nodes"] <= 60:
+        if rec["nodes"] <= 60 and rec["op"] != "construct":
             ctx.sample({"family": fam.params, "op": rec["op"], "request": rec["req"][:300],
                         "impl": {k: rec[k] for k in ("out", "c", "st", "m", "p", "i")}})
         rec["exc"] = None
@@ -1064,6 +1127,8 @@ def plan_depths(timings):
 
 
 def compare_s_only(ctx, fam, rec, fam_sig):
+    if rec["op"] == "construct":
+        return
     compare_dummy = [{"out": "ok" if rec["out"] == "ok" else "err", "c": rec["c"], "st": str(rec["st"]),
                       "m": rec["m"], "p": str(rec["p"]), "i": str(rec["i"])}]
     # run only the S part (the K part trivially agrees with the echo above)
@@ -1083,7 +1148,8 @@ def replay(ctx, rep):
     if fp.get("shape") == "random":
         ctx.report_k("random-DAG cases are regenerated from the seed: VERIF_SEED=%s ./check C20" % rep.get("seed"), r)
         return
-    run_family(ctx, fp["shape"], fp["kind"], fp["k"], "all", pending, timings)
+    run_family(ctx, fp["shape"], fp["kind"], fp["k"], "all" if fp["k"] <= 3000 else "linear", pending, timings,
+               only_op=r.get("op"))
     table = model_answers(ctx, "C20", [rec["req"] for _, rec, _ in pending])
     for fam, rec, fam_sig in pending:
         if r.get("op") not in (None, rec["op"]) and r.get("op") not in ("construct", "parse_dag"):
